@@ -341,6 +341,11 @@ static void oracle_C04(const Case &c, vf::Stats &st) {
     return;
   }
   if (!a.cr.generated_correctly && a.cr.errors.empty()) { st.violation(a.key(), "rejected without any error", a.cj); return; }
+  { // membership is a function of the source: the same buffer compiled again (an editor recompiling) gets the same verdict
+    Theo::CodegenResult again = Theo::compile(c.files, c.main);
+    if (again.generated_correctly != ref_accept) { st.violation(a.key(), std::string("compiled a second time in the same process the source is ") + (again.generated_correctly ? "accepted" : "rejected") + ", the first time it was " + (ref_accept ? "accepted" : "rejected: " + (a.scan_ok ? a.fr.why : std::string("scanner error"))), a.cj); return; }
+    if (again.errors.size() != a.cr.errors.size()) { st.violation(a.key(), "compiled a second time in the same process the source gets " + std::to_string(again.errors.size()) + " errors, the first time " + std::to_string(a.cr.errors.size()), a.cj); return; }
+    st.add("recompiled_same_verdict"); }
   if (ref_accept) st.sample("{\"accepted\":" + vf::jstr(c.files.at("main")) + "}", 2); else if (c.files.at("main").size() > 12) st.sample("{\"rejected\":" + vf::jstr(c.files.at("main")) + ",\"why\":" + vf::jstr(a.scan_ok ? a.fr.why : "scan") + "}", 2);
 }
 
